@@ -142,10 +142,16 @@ let () =
               | o :: ot, s :: st ->
                 let err = (match s with "err" :: name :: _ -> herr_of_name name | _ -> None) in
                 let bad_err = (match s with "err" :: name :: _ -> herr_of_name name = None | _ -> false) in
+                let okind = (match s with
+                    | "req" :: "none" :: _ -> Some BK_None
+                    | "req" :: "unknown" :: _ -> Some BK_Unknown
+                    | "req" :: k :: _ when String.length k > 5 && String.sub k 0 5 = "known" ->
+                      Some (BK_Known (n_of_decimal (String.sub k 5 (String.length k - 5))))
+                    | _ -> None) in
                 (match Option.bind (field "rs=" s) parse_rs, Option.bind (field "ws=" s) parse_ws, field "w=" s with
                  | Some rs', Some ws', Some w ->
                    if bad_err then "oracle=fail@unknown-error@" ^ string_of_int i
-                   else if oracle_c05_step (fun r -> r.r_code) rs ws o err rs' ws' (bytes_of_tok w)
+                   else if oracle_c05_step (fun r -> r.r_code) rs ws o err okind rs' ws' (bytes_of_tok w)
                    then go (i+1) rs' ws' ot st else "oracle=fail@contract@" ^ string_of_int i
                  | _ -> "oracle=fail@unparsable")
               | _ -> "oracle=ok" in
